@@ -571,7 +571,10 @@ class XsdElement(XsdComponent, ParticleMixin,
                               context: ValidationContext) -> None:
         for ns, url in iter_schema_location_hints(elem):
             # The hint is relative to the XML instance, the access control is the one of the schema
-            url = normalize_url(url, context.source.base_url)
+            try:
+                url = normalize_url(url, context.source.base_url)
+            except ValueError:
+                continue  # a malformed location hint is unusable
             if self.maps.get_schema(ns, url) is not None:
                 continue
             elif any(s.maps is not self.maps for s in self.maps.namespaces.get(ns, ())):
@@ -1454,7 +1457,10 @@ class Xsd11Element(XsdElement):
                               context: ValidationContext) -> None:
         for ns, url in iter_schema_location_hints(elem):
             # The hint is relative to the XML instance, the access control is the one of the schema
-            url = normalize_url(url, context.source.base_url)
+            try:
+                url = normalize_url(url, context.source.base_url)
+            except ValueError:
+                continue  # a malformed location hint is unusable
             if self.maps.get_schema(ns, url) is not None:
                 continue
             elif any(s.maps is not self.maps for s in self.maps.namespaces.get(ns, ())):
